@@ -1,9 +1,13 @@
 import IoraModel.Lemmas.TcpSession
+import IoraModel.Lemmas.TcpWake
+import IoraModel.Lemmas.TcpExt
 /-!
 # C01 — TCP/TLS sessions deliver sent bytes exactly once and in order
 
-Property theorems only (helper lemmas live in `Lemmas/TcpSession.lean`).  The model is `Model/TcpSession.lean`
-(`doSend`, `writePending`, `updateInterest`, `readAvail`, `driveHandshake`, `onSession`, `closeNow`, `enqueue`/`process`);
+Property theorems only (helper lemmas live in `Lemmas/TcpSession.lean`, `Lemmas/TcpExt.lean`, `Lemmas/TcpWake.lean`).  The model is
+`Model/TcpSession.lean` (`doSend`, `writePending`, `updateInterest`, `readAvail`, `driveHandshake`, `onSession`, `closeNow`, the Send /
+Close arms of `process()` with the stale-timeout guards, `shutdownDrain`, `enqueue`/`process` as lock micro-steps, `processBatch`'s
+order, the receive-side environment `Rd`) and `Model/TcpWake.lean` (the eventfd wake-up protocol);
 constants and source-shape facts come from the regenerated `Gen/TcpSession.lean`.
 
 Every theorem quantifies over ALL input histories; an input carries the environment's answers (`wrote n`, `again`,
@@ -46,13 +50,18 @@ theorem T1_step (cfg : Cfg) (hcob : cfg.closeOnBackpressure = true) (s : St) (i 
   step_good cfg hcob s i h
 
 /-- **T2 (no clear text on a TLS session).** On a session with TLS (`tls ≠ none`: handshake or open), no input history
-whatsoever makes the engine call the plain `::send`; and a step that leaves the session in the handshake state has put
+whatsoever makes the engine call the plain `::send` — or the plain `::recv` (`NoClear` excludes `.write false _` and
+`.read false _`: nothing is written to or taken from the socket behind OpenSSL's back); and a step that leaves the session in the handshake state has put
 nothing on the wire — sends accepted in the handshake window are only queued. -/
 theorem T2_no_cleartext_on_tls (cfg : Cfg) (s : St) (ht : s.tls ≠ .none) (is : List In) :
     NoClear (run cfg s is).2 ∧
     (∀ i, s.tls = .handshake → (step cfg s i).1.tls = .handshake → (step cfg s i).1.wire = s.wire) :=
   ⟨run_noClear cfg is s ht, fun i hs hs' => by
     simp only [St.wire]; rw [step_handshake_wire cfg s i hs hs']⟩
+
+/-- `NoClear` really excludes plain reads as well as plain writes -/
+example : ¬ NoClear [.read false 10] ∧ ¬ NoClear [.write false [1]] ∧ NoClear [.read true 10, .write true [1], .handshake] := by
+  unfold NoClear; decide
 
 /-- non-vacuity of T2: in the handshake window a send produces no write at all and is queued; after the handshake
 completes the queued payload goes out through `SSL_write` -/
@@ -209,7 +218,7 @@ answers, in order, each once (`deliveries`, and the same chunks are appended to 
 one more read than it got data answers, i.e. it stops exactly at the first non-data answer (EAGAIN / WANT_* / EOF /
 error), consumes it and nothing after it; and the session is closed afterwards iff it was closed before or that answer
 is EOF or an error. -/
-theorem T4_read_loop (cfg : Cfg) (s : St) (rs : List RAns) :
+theorem T4_read_loop (cfg : Cfg) (hd : cfg.readDrains = true) (s : St) (rs : List RAns) :
     let ssl := s.tls == .open
     let r := readAvail cfg s rs
     deliveries r.1.2 = dataPrefix ssl rs ∧
@@ -218,7 +227,7 @@ theorem T4_read_loop (cfg : Cfg) (s : St) (rs : List RAns) :
     r.2 = (afterData ssl rs).tail ∧
     readCalls r.1.2 = (dataPrefix ssl rs).length + 1 ∧
     r.1.1.closed = (s.closed || ((afterData ssl rs).head?.map (endsSession ssl)).getD false) := by
-  have h := readAvail_spec' cfg (s.tls == .open) rs s rfl
+  have h := readAvail_spec' cfg hd (s.tls == .open) rs s rfl
   refine ⟨h.1, ?_, ?_, h.2.2.2.1, h.2.2.2.2.1, h.2.2.2.2.2⟩
   · simp [St.delivered, h.2.1, List.reverse_append, List.flatten_append]
   · simp [St.received, h.2.2.1, List.reverse_append, List.flatten_append]
@@ -229,6 +238,118 @@ example : let r := readAvail {} ({} : St) [.data [1, 2], .data [3], .again, .dat
 example : let r := readAvail {} ({} : St) [.data [1], .eof]
     deliveries r.1.2 = [[1]] ∧ r.1.1.closed = true := by decide
 
+/-- the code as it is reads until the channel blocks in BOTH epoll modes (regenerated from the loop head of `readAvail`) -/
+theorem T4_default_drains : ({} : Cfg).readDrains = true ∧ ({ edge := false } : Cfg).readDrains = true := by decide
+
+/-- **T4 over whole histories (delivered = received).** For every input history from a fresh session: the bytes handed to the data
+callback are exactly the bytes `recv` / `SSL_read` returned, in order, each once — as state (`delivered = received`) and as
+outputs (the payloads of the `deliver` outputs of the whole run, concatenated). Holds for either loop shape. -/
+theorem T4_run_delivered_eq_received (cfg : Cfg) (s0 : St) (h0 : s0.Fresh) (is : List In) :
+    let r := run cfg s0 is
+    r.1.delivered = r.1.received ∧ r.1.delivered = (deliveries r.2).flatten := by
+  intro r
+  have h := run_rd cfg is s0
+  unfold RdInv at h
+  rw [h0.2.2.2.1, h0.2.2.2.2.1] at h
+  simp only [List.append_nil] at h
+  refine ⟨by simp only [St.delivered, St.received]; rw [h.1, h.2], ?_⟩
+  simp only [St.delivered]; rw [h.1, List.reverse_reverse]
+
+/-- **T4: one wake-up takes everything the environment holds — the plaintext OpenSSL has buffered included.** The environment
+holds `e.buf` (plaintext of a record `SSL_read` has pulled out of the kernel but not returned: no epoll event will ever announce
+it) and `e.kern` (records still in the kernel buffer). With the drain loop (`cfg.readDrains`, true for the code as it is in both
+epoll modes) and a non-zero `ioReadChunk`, ONE `readAvail` call answered by that environment delivers all of it, in order,
+consumes every answer up to the final EAGAIN / WANT_READ, and leaves the session open. -/
+theorem T4_wakeup_drains_environment (cfg : Cfg) (hd : cfg.readDrains = true) (hc : 0 < cfg.ioReadChunk) (s : St) (e : Rd.Env) :
+    let ssl := s.tls == .open
+    let r := readAvail cfg s (e.answers ssl cfg.ioReadChunk)
+    r.1.1.delivered = s.delivered ++ e.content ∧ r.2 = [] ∧ r.1.1.closed = s.closed := by
+  intro ssl r
+  have h4 := T4_read_loop cfg hd s (e.answers ssl cfg.ioReadChunk)
+  have ha := Rd.answers_spec ssl cfg.ioReadChunk hc e
+  simp only at h4
+  refine ⟨by rw [h4.2.1, ha.1], by rw [h4.2.2.2.1, ha.2]; rfl, ?_⟩
+  rw [h4.2.2.2.2.2, ha.2]
+  cases hs : (s.tls == Tls.open) <;> simp [ssl, hs, endsSession, classifyR]
+
+/-- **T4 over whole histories of the closed receive-side system (delivered = everything the peer sent).** The peer appends
+records to the kernel buffer at any time; epoll wakes the I/O thread only while the KERNEL buffer is non-empty; a wake-up is one
+`readAvail` call answered by the environment (which may leave plaintext inside OpenSSL if the caller does not drain). With the
+drain loop, for every interleaving of peer writes and wake-ups from an environment with nothing buffered: the bytes handed to
+the data callback followed by what is still in the kernel buffer are exactly the bytes the peer sent, in order; nothing is ever
+left inside OpenSSL between wake-ups; hence whenever epoll is silent, everything the peer sent has been delivered. -/
+theorem T4_run_delivered_eq_sent (cfg : Cfg) (hd : cfg.readDrains = true) (hc : 0 < cfg.ioReadChunk) (s0 : St)
+    (acts : List Rd.Act) :
+    let y := Rd.Sys.run cfg { s := s0 } acts
+    y.s.delivered ++ y.e.kern.flatten = s0.delivered ++ y.sent ∧ y.e.buf = [] ∧
+    (y.e.epollIn = false → y.s.delivered = s0.delivered ++ y.sent) := by
+  have key : ∀ (acts : List Rd.Act) (y : Rd.Sys), y.e.buf = [] → y.s.delivered ++ y.e.kern.flatten = s0.delivered ++ y.sent →
+      (Rd.Sys.run cfg y acts).e.buf = [] ∧
+      (Rd.Sys.run cfg y acts).s.delivered ++ (Rd.Sys.run cfg y acts).e.kern.flatten = s0.delivered ++ (Rd.Sys.run cfg y acts).sent := by
+    intro acts
+    induction acts with
+    | nil => intro y hb hi; exact ⟨hb, hi⟩
+    | cons a as ih =>
+      intro y hb hi
+      simp only [Rd.Sys.run]
+      apply ih
+      · cases a with
+        | peerWrite r => exact hb
+        | wake =>
+          simp only [Rd.Sys.step]
+          split
+          · simp [hd]
+          · exact hb
+      · cases a with
+        | peerWrite r =>
+          simp only [Rd.Sys.step, List.flatten_append, List.flatten_cons, List.flatten_nil, List.append_nil]
+          rw [← List.append_assoc, hi, List.append_assoc]
+        | wake =>
+          simp only [Rd.Sys.step]
+          split
+          · have h := (T4_wakeup_drains_environment cfg hd hc y.s y.e).1
+            simp only [hd, if_true, List.flatten_nil, List.append_nil]
+            rw [h, ← hi]
+            simp [Rd.Env.content, hb]
+          · exact hi
+  intro y
+  have h := key acts { s := s0 } rfl (by simp)
+  refine ⟨h.2, h.1, fun he => ?_⟩
+  have hk : y.e.kern = [] := by
+    have : (!y.e.kern.isEmpty) = false := he
+    cases hkk : y.e.kern with
+    | nil => rfl
+    | cons _ _ => rw [hkk] at this; simp at this
+  have h2 := h.2
+  rw [show (Rd.Sys.run cfg { s := s0 } acts) = y from rfl, hk] at h2
+  simpa using h2
+
+/-- non-vacuity / witness pair: the same history (a 3-byte record, one wake-up, `ioReadChunk` = 2, TLS, level-triggered) delivers
+everything with the drain loop and strands the last byte — epoll silent, session open — with one read per wake-up -/
+example :
+    let acts : List Rd.Act := [.peerWrite [1, 2, 3], .wake, .wake]
+    let good := Rd.Sys.run { edge := false, ioReadChunk := 2 } { s := { tls := .open } } acts
+    let bad := Rd.Sys.run { edge := false, readDrainsLT := false, ioReadChunk := 2 } { s := { tls := .open } } acts
+    good.s.delivered = [1, 2, 3] ∧ good.e.epollIn = false ∧
+    bad.s.delivered = [1, 2] ∧ bad.sent = [1, 2, 3] ∧ bad.e.epollIn = false ∧ bad.e.buf = [3] ∧ bad.s.closed = false := by decide
+
+/-- non-vacuity: a 5-byte record, half of it already buffered inside OpenSSL, chunk size 2 -/
+example : let e : Rd.Env := { buf := [2, 3], kern := [[4, 5, 6]] }
+    let r := readAvail { ioReadChunk := 2 } ({ tls := .open } : St) (e.answers true 2)
+    r.1.1.delivered = [2, 3, 4, 5, 6] ∧ deliveries r.1.2 = [[2, 3], [4, 5], [6]] ∧ r.2 = [] := by decide
+
+/-- **T4 needs the drain loop in level-triggered mode.** If `readAvail` took ONE read per readiness notification in
+level-triggered mode (`readDrainsLT = false`: the loop conditioned on `useEdgeTriggered`), then on a TLS session with
+`ioReadChunk` = 2 and one 3-byte record: the single `SSL_read` pulls the whole record out of the kernel, returns 2 bytes, the
+third stays inside OpenSSL, the kernel buffer is empty — epoll stays silent — and the byte is never delivered while the session
+stays open. The regenerated fact `readAvailDrainsLevelTriggered = true` (`T4_default_drains`, `gen_conforms`) is load-bearing. -/
+theorem T4_one_read_per_wakeup_strands_tls_tail :
+    ∃ (cfg : Cfg) (e : Rd.Env), cfg.edge = false ∧ cfg.readDrainsLT = false ∧
+      let r := readAvail cfg ({ tls := .open } : St) (e.answers true cfg.ioReadChunk)
+      e.content = [1, 2, 3] ∧ r.1.1.closed = false ∧ r.1.1.delivered = [1, 2] ∧ r.2 = [.data [3], .wantR] ∧
+      (e.afterOneSslRead cfg.ioReadChunk).epollIn = false ∧ (e.afterOneSslRead cfg.ioReadChunk).buf = [3] :=
+  ⟨{ edge := false, readDrainsLT := false, ioReadChunk := 2 }, { kern := [[1, 2, 3]] }, rfl, rfl, by decide⟩
+
 /-- **T5 (per-thread FIFO under one mutex).** `enqueue` = lock `_cmdMutex`, read the end position, store + publish,
 unlock; `process` swaps the queue under the same mutex. For every number of sender threads and EVERY schedule of these
 micro-steps (a step that is not enabled is a stutter), the commands of each thread `t` in dispatched-then-queued order
@@ -238,18 +359,18 @@ duplicated or reordered within a thread; and every queued or dispatched command 
 accepted order is exactly an interleaving of the per-thread send orders. The lock flag is the one the
 translator extracts from `enqueue()`. -/
 theorem T5_per_thread_fifo (n : Nat) (sched : List Enq.Actor) (t : Enq.Tid) (ht : t < n) :
-    let q := Enq.run Gen.TcpSession.enqueuePushUnderCmdMutex (Enq.init n) sched
+    let q := Enq.run Gen.TcpSession.enqueuePushUnderCmdMutex Gen.TcpSession.processSwapUnderCmdMutex (Enq.init n) sched
     (∃ th, q.thr[t]? = some th ∧
       Enq.seqOf t (q.taken ++ q.cmds) = List.range (th.next + (if th.pc = .stored then 1 else 0))) ∧
     (∀ c ∈ q.taken ++ q.cmds, c.1 < n) := by
-  show (∃ th, (Enq.run true (Enq.init n) sched).thr[t]? = some th ∧
-      Enq.seqOf t ((Enq.run true (Enq.init n) sched).taken ++ (Enq.run true (Enq.init n) sched).cmds) =
+  show (∃ th, (Enq.run true true (Enq.init n) sched).thr[t]? = some th ∧
+      Enq.seqOf t ((Enq.run true true (Enq.init n) sched).taken ++ (Enq.run true true (Enq.init n) sched).cmds) =
         List.range (th.next + (if th.pc = .stored then 1 else 0))) ∧
-    (∀ c ∈ (Enq.run true (Enq.init n) sched).taken ++ (Enq.run true (Enq.init n) sched).cmds, c.1 < n)
-  have hinv : Enq.EInv (Enq.run true (Enq.init n) sched) := Enq.run_inv sched (Enq.init n) (Enq.init_inv n)
-  have hlen : (Enq.run true (Enq.init n) sched).thr.length = n := by
+    (∀ c ∈ (Enq.run true true (Enq.init n) sched).taken ++ (Enq.run true true (Enq.init n) sched).cmds, c.1 < n)
+  have hinv : Enq.EInv (Enq.run true true (Enq.init n) sched) := Enq.run_inv sched (Enq.init n) (Enq.init_inv n)
+  have hlen : (Enq.run true true (Enq.init n) sched).thr.length = n := by
     rw [Enq.run_thr_length]; simp [Enq.init]
-  have hlt : t < (Enq.run true (Enq.init n) sched).thr.length := by rw [hlen]; exact ht
+  have hlt : t < (Enq.run true true (Enq.init n) sched).thr.length := by rw [hlen]; exact ht
   refine ⟨⟨_, List.getElem?_eq_getElem hlt, hinv.fifo t _ (List.getElem?_eq_getElem hlt)⟩, ?_⟩
   intro c hc
   have := hinv.dom c hc
@@ -261,7 +382,7 @@ accepted send, never several (a `send` that queued its payload in pieces would c
 numbers present are exactly `0 … k-1`. The source-side half is `gen_conforms`: `send` has no loop, copies all `n` bytes into ONE
 `Command::send` and calls `enqueue` once. -/
 theorem send_is_one_command (n : Nat) (sched : List Enq.Actor) (t : Enq.Tid) (ht : t < n) :
-    let q := Enq.run Gen.TcpSession.enqueuePushUnderCmdMutex (Enq.init n) sched
+    let q := Enq.run Gen.TcpSession.enqueuePushUnderCmdMutex Gen.TcpSession.processSwapUnderCmdMutex (Enq.init n) sched
     ∃ th, q.thr[t]? = some th ∧
       ((q.taken ++ q.cmds).filter (·.1 == t)).length = th.next + (if th.pc = .stored then 1 else 0) ∧
       (Enq.seqOf t (q.taken ++ q.cmds)).Nodup ∧
@@ -305,7 +426,7 @@ after it: open ⇒ wire ++ pending = (bytes of `a`) ++ `pay c` ++ (bytes of `b`)
 commands of each thread among the dispatched ones are its sends `0, 1, …` in order, each once (T5). -/
 theorem T5_T1_one_send_contiguous (cfg : Cfg) (hcob : cfg.closeOnBackpressure = true) (s0 : St) (h0 : s0.Fresh)
     (n : Nat) (sched : List Enq.Actor) (pay : Enq.Tid → Nat → Bytes) (is : List In) :
-    let q := Enq.run Gen.TcpSession.enqueuePushUnderCmdMutex (Enq.init n) sched
+    let q := Enq.run Gen.TcpSession.enqueuePushUnderCmdMutex Gen.TcpSession.processSwapUnderCmdMutex (Enq.init n) sched
     let bytesOf : List Enq.Cmd → Bytes := fun l => (l.map fun c => pay c.1 c.2).flatten
     sentPayloads is = q.taken.map (fun c => pay c.1 c.2) →
     let s := (run cfg s0 is).1
@@ -321,7 +442,7 @@ theorem T5_T1_one_send_contiguous (cfg : Cfg) (hcob : cfg.closeOnBackpressure = 
 /-- example: two senders; thread 0's one send `[1,2,3]` is cut after one byte and refused once, thread 1's `[9]` was dispatched
 after it — the wire shows `[1,2,3]` as one block followed by `[9]`, whatever happened in between -/
 example :
-    let q := Enq.run true (Enq.init 2) [.sender 0, .sender 0, .sender 1, .sender 0, .sender 0, .sender 1, .sender 1, .sender 1,
+    let q := Enq.run true true (Enq.init 2) [.sender 0, .sender 0, .sender 1, .sender 0, .sender 0, .sender 1, .sender 1, .sender 1,
       .sender 1, .io]
     let pay : Enq.Tid → Nat → Bytes := fun t _ => if t = 0 then [1, 2, 3] else [9]
     let is : List In := [.cmdSend [1, 2, 3] (.wrote 1), .cmdSend [9] .again,
@@ -333,17 +454,82 @@ example :
 /-- `process()` takes the queue under the same mutex (regenerated fact) -/
 theorem T5_swap_locked : Gen.TcpSession.processSwapUnderCmdMutex = true := by decide
 
+/-- **T5 needs the swap under the mutex.** If `process()` swapped the queue without `_cmdMutex` (`swapLocked = false`: read the
+contents, then clear, as two steps at any time), one sender suffices: its `enqueue` runs between the two halves of the swap, returns,
+and its command is neither queued nor dispatched — the translator fact `processSwapUnderCmdMutex` is load-bearing (it is the
+second argument of `Enq.run` in T5). -/
+theorem T5_needs_locked_swap :
+    ∃ sched, let q := Enq.run true false (Enq.init 1) sched
+      (q.thr.map (·.next)) = [1] ∧ (q.thr.map (·.pc)) = [.idle] ∧ q.taken ++ q.cmds = [] ∧ q.ioTmp = none :=
+  ⟨[.io, .sender 0, .sender 0, .sender 0, .sender 0, .io], by decide⟩
+
+/-! ## The eventfd wake-up: an accepted command is dispatched -/
+
+/-- **No lost wake-up.** `enqueue` = lock, `push_back`, eventfd write, unlock; the loop's eventfd handler = `drainEvt(); process();`
+(both orders regenerated from the source: `enqueueWakeAfterPushUnderLock`, `loopDrainBeforeProcess`). For EVERY schedule of the
+micro-steps of any number of senders and the I/O thread: a non-empty command queue is always announced — the eventfd counter is
+non-zero (level-triggered `epoll_wait` returns), or the I/O thread stands between `drainEvt()` and `process()` (it swaps next), or
+the sender that pushed still holds the lock right before its eventfd write; every pushed command is queued or taken; hence
+whenever the I/O thread is asleep (in `epoll_wait`, counter 0, no `enqueue` in flight) the queue is EMPTY and every accepted
+command has been handed to the dispatch loop. -/
+theorem no_lost_wakeup (sched : List Wake.Actor) :
+    let w := Wake.run Gen.TcpSession.enqueueWakeAfterPushUnderLock Gen.TcpSession.loopDrainBeforeProcess {} sched
+    (w.cmds > 0 → w.evt > 0 ∨ w.io = .mid ∨ w.crit = .pushed) ∧ w.accepted = w.taken + w.cmds ∧
+    (w.Asleep → w.cmds = 0 ∧ w.taken = w.accepted) := by
+  have key : ∀ w : Wake.W, Wake.WInv w →
+      (w.cmds > 0 → w.evt > 0 ∨ w.io = .mid ∨ w.crit = .pushed) ∧ w.accepted = w.taken + w.cmds ∧
+      (w.Asleep → w.cmds = 0 ∧ w.taken = w.accepted) := by
+    intro w h
+    refine ⟨h.announced, h.conserved, fun ha => ?_⟩
+    obtain ⟨hio, hev, hcr, _⟩ := ha
+    have hc0 : w.cmds = 0 := by
+      by_cases h0 : w.cmds > 0
+      · rcases h.announced h0 with h1 | h1 | h1
+        · omega
+        · rw [hio] at h1; cases h1
+        · rw [hcr] at h1; cases h1
+      · omega
+    exact ⟨hc0, by have := h.conserved; omega⟩
+  exact key _ (Wake.run_inv sched {} Wake.init_inv)
+
+/-- **… and the I/O thread needs at most three of its own steps** (wake, `drainEvt`, `process`) to take everything that is queued,
+from every reachable state in which no sender holds the lock. -/
+theorem wakeup_dispatches_all (sched : List Wake.Actor) :
+    let w := Wake.run Gen.TcpSession.enqueueWakeAfterPushUnderLock Gen.TcpSession.loopDrainBeforeProcess {} sched
+    w.crit = .free →
+      (Wake.run true true w [.io, .io, .io]).cmds = 0 ∧ (Wake.run true true w [.io, .io, .io]).taken = w.accepted := by
+  intro w hf
+  exact Wake.io_alone w (Wake.run_inv sched {} Wake.init_inv) hf
+
+/-- non-vacuity: two senders' enqueues around a wake-up; everything is dispatched, the I/O thread sleeps with an empty queue -/
+example : let w := Wake.run true true {} [.sender, .sender, .sender, .io, .io, .sender, .sender, .sender, .sender, .sender, .io, .io, .io, .io]
+    w.accepted = 2 ∧ w.taken = 2 ∧ w.cmds = 0 ∧ w.evt = 0 ∧ w.io = .waiting ∧ w.crit = .free := by decide
+
+/-- **The order `drainEvt(); process();` is needed.** With `process(); drainEvt();` a command enqueued between the swap and the
+drain is wiped from the eventfd counter: the I/O thread sleeps, the command sits in the queue, nobody is in `enqueue`. -/
+theorem wakeup_needs_drain_before_process :
+    ∃ sched, let w := Wake.run true false {} sched
+      w.io = .waiting ∧ w.evt = 0 ∧ w.crit = .free ∧ w.pre = 0 ∧ w.cmds = 1 ∧ w.accepted = 2 ∧ w.taken = 1 :=
+  ⟨[.sender, .sender, .sender, .sender, .io, .io, .sender, .sender, .sender, .sender, .io], by decide⟩
+
+/-- **The eventfd write must follow the push (inside the lock).** With the write before the lock, the I/O thread can wake, drain and
+swap an empty queue before the push happens: asleep with one command queued. -/
+theorem wakeup_needs_write_after_push :
+    ∃ sched, let w := Wake.run false true {} sched
+      w.io = .waiting ∧ w.evt = 0 ∧ w.crit = .free ∧ w.pre = 0 ∧ w.cmds = 1 ∧ w.accepted = 1 ∧ w.taken = 0 :=
+  ⟨[.early, .io, .io, .io, .sender, .sender, .sender], by decide⟩
+
 /-- non-vacuity of T5: two threads interleaved step by step, the I/O thread swapping in between -/
 def demoSched : List Enq.Actor :=
   [.sender 0, .sender 1, .sender 0, .sender 0, .sender 0, .io, .sender 1, .sender 1, .sender 1, .sender 1, .sender 0,
    .sender 0, .sender 0, .sender 0]
-example : (Enq.run true (Enq.init 2) demoSched).taken = [(0, 0)] ∧
-    (Enq.run true (Enq.init 2) demoSched).cmds = [(1, 0), (0, 1)] := by decide
+example : (Enq.run true true (Enq.init 2) demoSched).taken = [(0, 0)] ∧
+    (Enq.run true true (Enq.init 2) demoSched).cmds = [(1, 0), (0, 1)] := by decide
 
 /-- **T5 needs the mutex.** With `locking = false` there is a two-thread schedule in which both `enqueue` calls return
 but only one command is in the queue — the translator fact `enqueuePushUnderCmdMutex` is load-bearing. -/
 theorem T5_needs_mutex :
-    ∃ sched, let q := Enq.run false (Enq.init 2) sched
+    ∃ sched, let q := Enq.run false true (Enq.init 2) sched
       (q.thr.map (·.next)) = [1, 1] ∧ (q.thr.map (·.pc)) = [.idle, .idle] ∧ Enq.seqOf 0 (q.taken ++ q.cmds) = [] :=
   ⟨[.sender 0, .sender 1, .sender 0, .sender 1, .sender 0, .sender 1, .sender 0, .sender 1], by decide⟩
 
@@ -372,6 +558,96 @@ example : let cfg : Cfg := { maxWriteQueue := 1 }
     Good cfg s ∧ (step cfg s (.cmdSend [3] .again)).2 = [.close .backpressure] ∧ (step cfg s (.cmdSend [3] .again)).1.closed = true := by
   refine ⟨run_good _ rfl _ _ (fresh_good _ _ (by simp [initAccepted, St.Fresh])), by decide, by decide⟩
 
+/-- **The Close arm of `process()`: stale timer closes are dropped, everything else closes.** A `Cmd::Close` whose origin is a
+timer (connect timeout / handshake timeout / write stall) is ignored — no output, state untouched — exactly when the condition it
+was armed for no longer holds (`!connectPending` / `tls ≠ handshake` / `wq` empty, the three conditions regenerated in
+`processCloseGuards`); otherwise, and for every application close, it is `closeNow` (T6 covers both: `T6_drop_only_with_close`
+quantifies over every input). -/
+theorem close_arm_spec (cfg : Cfg) (s : St) (w : Why) (o : Origin) :
+    (closeGuardSkips s o = true → step cfg s (.cmdClose w o) = (s, [])) ∧
+    (closeGuardSkips s o = false → step cfg s (.cmdClose w o) = closeNow s w) ∧
+    closeGuardSkips s .app = false ∧
+    (closeGuardSkips s .connectTimeout = !s.connectPending) ∧
+    (closeGuardSkips s .handshakeTimeout = (s.tls != .handshake)) ∧
+    (closeGuardSkips s .writeStall = s.wq.isEmpty) := by
+  refine ⟨fun h => by simp [step, h], fun h => by simp [step, h], rfl, rfl, rfl, rfl⟩
+
+/-- examples: a write-stall close with bytes still queued closes the session (and says so); the same command after the queue has
+drained is dropped; a handshake timeout on an open TLS session is dropped -/
+example : (step {} ({ wq := [[1]] } : St) (.cmdClose .socket .writeStall)).2 = [.close .socket] ∧
+    (step {} ({} : St) (.cmdClose .socket .writeStall)).2 = [] ∧
+    (step {} ({} : St) (.cmdClose .socket .writeStall)).1.closed = false ∧
+    (step {} ({ tls := .open } : St) (.cmdClose .tlsHandshake .handshakeTimeout)).2 = [] ∧
+    (step {} ({ tls := .handshake } : St) (.cmdClose .tlsHandshake .handshakeTimeout)).2 = [.close .tlsHandshake] := by decide
+
+/-- **`shutdownDrain`.** The loop exit closes the session and then takes the residual command queue without dispatching it: the
+payloads of Send commands `enqueue` had accepted are dropped — together with the close (the output carries it, if the session was
+still open), and the wire is still a prefix of everything accepted, the residual payloads included. -/
+theorem T6_shutdown (cfg : Cfg) (hcob : cfg.closeOnBackpressure = true) (s : St) (residual : List Bytes) (h : Good cfg s) :
+    let r := step cfg s (.shutdown residual)
+    r.1.closed = true ∧ (s.closed = false → r.2 = [.close .shutdown]) ∧
+    r.1.accepted = s.accepted ++ residual.filter (!·.isEmpty) ∧ r.1.wire <+: r.1.accepted.flatten := by
+  intro r
+  refine ⟨by show (closeNow s .shutdown).1.closed = true; simp, fun hc => cn_outs_open s .shutdown hc, ?_,
+    (step_good cfg hcob s (.shutdown residual) h).1.2⟩
+  show (((residual.filter (!·.isEmpty)).reverse ++ (closeNow s .shutdown).1.acceptedRev).reverse) = _
+  simp [St.accepted, List.reverse_append]
+
+/-! ## The same-buffer retry obligation of `SSL_write` (OpenSSL's moving-buffer rule) -/
+
+/-- **Retry with the same buffer.** Close-on-backpressure policy. From every open session whose queue front is `b` — in particular
+right after a write of `b` was refused (`retry_block_leaves_front`) — and for every further history: the NEXT `::send` /
+`SSL_write` the engine issues, whenever it comes, passes exactly `b` (same bytes, same length); or no write is ever issued again
+(the session was closed, which is reported). -/
+theorem retry_same_buffer (cfg : Cfg) (hcob : cfg.closeOnBackpressure = true) (s : St) (b : Bytes)
+    (hc : s.closed = false) (hq : s.wq.head? = some b) (is : List In) :
+    firstWrite (run cfg s is).2 = none ∨ firstWrite (run cfg s is).2 = some b :=
+  run_front cfg hcob b is s hc hq
+
+/-- **A refused write leaves its buffer at the front.** (1) `doSend` on an empty queue whose direct write is refused (EAGAIN /
+WANT_READ / WANT_WRITE) issued exactly that write first and leaves the session closed (queue limit 0) or with queue `[p]`; (2) a
+drain loop that stops on a refusal leaves the refused buffer — the argument of its LAST write — at the front. -/
+theorem retry_block_leaves_front (cfg : Cfg) (hcob : cfg.closeOnBackpressure = true) :
+    (∀ (s : St) (p : Bytes) (a : WAns) (tw : Bool), s.closed = false → s.tls ≠ .handshake → s.wq = [] →
+      classifyW (s.tls == .open) a = .block tw →
+      (doSend cfg s p a).2.head? = some (.write (s.tls == .open) p) ∧
+      ((doSend cfg s p a).1.closed = true ∨ (doSend cfg s p a).1.wq = [p])) ∧
+    (∀ (ssl : Bool) (q : List Bytes) (as : List WAns) (tw : Bool), (writeLoop ssl q as).stop = .blocked tw →
+      ∃ d rest, (writeLoop ssl q as).wq = d :: rest ∧ (writeLoop ssl q as).outs.getLast? = some (.write ssl d)) :=
+  ⟨fun s p a tw hc hh hq hb => doSend_block_front cfg hcob s p a tw hc hh hq hb, writeLoop_block_front⟩
+
+/-- example: `SSL_write([1,2,3])` answers WANT_WRITE, two more payloads are queued, an event is refused again, then accepted: every
+write up to the first success passes `[1,2,3]` -/
+example : let s0 : St := { tls := .open }
+    let r1 := step {} s0 (.cmdSend [1, 2, 3] .wantW)
+    r1.1.wq.head? = some [1, 2, 3] ∧
+    firstWrite (run {} r1.1 [.cmdSend [4] .again, .event { inn := true } true .established .done [.wantR] [],
+      .event { out := true } true .established .done [] [.wantR]]).2 = some [1, 2, 3] := by decide
+
+/-- **Scope: the drop-oldest policy breaks the rule.** With `closeOnBackpressure = false` the refused buffer can be popped from
+the front while OpenSSL still expects it: the next `SSL_write` passes a different buffer. -/
+theorem retry_moves_under_drop_oldest :
+    ∃ (cfg : Cfg) (s : St) (is : List In), cfg.closeOnBackpressure = false ∧ s.closed = false ∧ s.wq.head? = some [1, 2] ∧
+      firstWrite (run cfg s is).2 = some [3] :=
+  ⟨{ maxWriteQueue := 1, closeOnBackpressure := false },
+   (step { maxWriteQueue := 1, closeOnBackpressure := false } ({ tls := .open } : St) (.cmdSend [1, 2] .wantW)).1,
+   [.cmdSend [3] .again, .event { out := true } true .established .done [] [.wrote 1]], rfl, by decide⟩
+
+/-! ## `EventBatchProcessor::processBatch` -/
+
+/-- **Batch order.** The batched loop handles one `epoll_wait` batch in the order `batchOrder special` (special fds — eventfd,
+timerfd — first, then the others; the function the acceptor driver uses): it is a permutation of the batch (no event lost or
+duplicated), and the events of any class lying wholly on one side — in particular all events of ONE session fd — keep their
+relative order. -/
+theorem batch_order_is_order_preserving_permutation {α : Type} (special : α → Bool) (evs : List α) :
+    (batchOrder special evs).Perm evs ∧
+    ∀ p : α → Bool, ((∀ e, p e = true → special e = true) ∨ (∀ e, p e = true → special e = false)) →
+      (batchOrder special evs).filter p = evs.filter p :=
+  ⟨batchOrder_perm special evs, fun p h => batchOrder_filter special p evs h⟩
+
+example : batchOrder (fun (e : String × Nat) => e.1 = "v" || e.1 = "t") [("s", 1), ("v", 1), ("s", 3), ("t", 1)] =
+    [("v", 1), ("t", 1), ("s", 1), ("s", 3)] := by decide
+
 /-- **Scope of T1/T6: the policy matters.** With `closeOnBackpressure = false` ("drop oldest") the engine pops the FRONT
 of the queue, which may be the unsent tail of a half-written payload: the wire is then no longer a prefix of the accepted
 stream (here: byte 1 of payload `[1,2]` is on the wire, byte 2 is dropped, payload `[3]` follows). The statement of C01
@@ -394,7 +670,14 @@ FRONT, whole payloads are pushed at the BACK, short-write tests are `n < size`, 
 tlsWantWrite : connectPending)` and ends in ONE unconditional `modEpoll` = `epoll_ctl(EPOLL_CTL_MOD)`, called from exactly the
 sites the model has; `tlsMode` and `tlsState` are only ever set together (None/None by default, mode + Handshake in
 `onListener`/`doConnect`, Open in `driveHandshake`), which is what lets the model merge them into one field; `sendAsync`
-and the `Transport` wrappers only delegate to `send`. -/
+and the `Transport` wrappers — `send`, `sendAsync`, `sendSync`, `sendSyncCancellable` — only delegate to ONE `send` (no loop);
+`send` calls nothing but the copy, `Command::send` and one `enqueue` and has two `return`s; the eventfd write follows `push_back`
+inside the lock scope and `drainEvt()` precedes `process()` in both loops (eventfd registered level-triggered); `readAvail`'s loop is
+the unconditional `for (;;)` with 3 `break` / 5 `return` exits; the Close arm of `process()` has exactly the three stale-timeout
+guards the model has; `processBatch` handles special fds inline and the others in a second pass over `normalEvents`;
+`shutdownDrain` is `process()`, then for every not yet closed session mark-closed / epoll DEL / close(fd) / close callback (what
+`In.shutdown` emits as `.close .shutdown`), then — under `_cmdMutex` — the queue is closed and the residual swapped out, and
+nothing of it is dispatched. -/
 theorem gen_conforms :
     Gen.TcpSession.enqueuePushUnderCmdMutex = true ∧ Gen.TcpSession.processSwapUnderCmdMutex = true ∧
     Gen.TcpSession.enqueueQueueOps = ["push_back", "push_back"] ∧
@@ -419,7 +702,21 @@ theorem gen_conforms :
     Gen.TcpSession.tlsAssignments = ["onListener:tlsMode=Server", "onListener:tlsState=Handshake",
       "doConnect:tlsMode=Client", "doConnect:tlsState=Handshake", "driveHandshake:tlsState=Open"] ∧
     Gen.TcpSession.tlsDefaults = ["None", "None"] ∧
-    Gen.TcpSession.sendAsyncSendCalls = 1 ∧ Gen.TcpSession.transportSendDelegates = ["send", "sendAsync"] := by decide
+    Gen.TcpSession.sendAsyncSendCalls = 1 ∧ Gen.TcpSession.transportSendDelegates = ["send", "sendAsync"] ∧
+    Gen.TcpSession.enqueueWakeAfterPushUnderLock = true ∧ Gen.TcpSession.loopDrainBeforeProcess = true ∧
+    Gen.TcpSession.processCallStatements = 3 ∧ Gen.TcpSession.eventFdEpollMask = "EPOLLIN" ∧
+    Gen.TcpSession.sendCallees = ["Command::send", "IORA_LOG_DEBUG", "b", "b.data", "enqueue", "std::memcpy", "std::move"] ∧
+    Gen.TcpSession.sendReturnCount = 2 ∧
+    Gen.TcpSession.readAvailDrainsLevelTriggered = true ∧ Gen.TcpSession.readAvailBreaks = 3 ∧ Gen.TcpSession.readAvailReturns = 5 ∧
+    Gen.TcpSession.processCloseGuards = ["ConnectTimeout:!s->connectPending",
+      "HandshakeTimeout:s->tlsState != TlsState::Handshake", "WriteStall:s->wq.empty()"] ∧
+    Gen.TcpSession.transportSendSyncDelegates = ["send"] ∧ Gen.TcpSession.transportSendSyncLoops = 0 ∧
+    Gen.TcpSession.transportSendSyncCancellableDelegates = ["sendSync"] ∧ Gen.TcpSession.transportSendSyncCancellableLoops = 0 ∧
+    Gen.TcpSession.batchProcessorShape = ["special-inline-first-pass", "normalEvents.emplace_back", "second-pass-over:normalEvents"] ∧
+    Gen.TcpSession.shutdownDrainSteps = ["process", "skip-closed", "mark-closed", "epoll-del", "close-fd", "close-callback",
+      "queue-closed", "residual-swap"] ∧
+    Gen.TcpSession.shutdownResidualUnderCmdMutex = true ∧ Gen.TcpSession.shutdownDrainDispatchCalls = 0 := by
+  decide
 
 /-! ## Observations (true of the code as it is; none contradicts the statement of C01) -/
 
